@@ -142,6 +142,14 @@ func registerEnv(ip *Interp) {
 			return ip.zero(f.Signature.Results().At(0).Type())
 		})
 	}
+	// the default logger made by gengo.NewContext (the harness replaces it before use)
+	for _, n := range []string{"log/slog.New", "log/slog.NewTextHandler"} {
+		n := n
+		ip.regStub(n, func(ip *Interp, fr *frame, a []Value) Value {
+			f := ip.lookupFunc(n)
+			return ip.zero(f.Signature.Results().At(0).Type())
+		})
+	}
 	for _, n := range []string{"time.Now", "time.Since"} {
 		n := n
 		ip.regStub(n, func(ip *Interp, fr *frame, a []Value) Value {
